@@ -1,5 +1,5 @@
 """Shared machinery of ./check: Coq build, harness build, case running, comparison, evidence."""
-import json, os, re, subprocess, sys, time, hashlib, shutil, resource, random
+import json, os, re, threading, subprocess, sys, time, hashlib, shutil, resource, random
 from concurrent.futures import ThreadPoolExecutor
 
 VERIF = os.path.dirname(os.path.dirname(os.path.abspath(__file__)))
@@ -182,7 +182,7 @@ def assumptions_ok(res):
     return bad, sorted(used)
 
 
-def run_model_cases(imports, runner, terms, tag, shard=400, scope="N_scope"):
+def run_model_cases(imports, runner, terms, tag, shard=400, scope="N_scope", mem_gb_per_mb=6.5):
     """Evaluates `runner term` inside Coq (vm_compute) for every term, sharded over coqc processes.
     runner : Gallina function from one case to a string (one line).
     Returns list of result lines (same order as terms)."""
@@ -231,8 +231,27 @@ def run_model_cases(imports, runner, terms, tag, shard=400, scope="N_scope"):
             res.append(body[:-1].replace("\n", " "))
         return res
 
+    # coqc needs roughly 6.5 GB per MB of case literals (large page dumps in the thorough tiers): admit evaluations so that
+    # the estimated total stays below the budget, whatever the number of cores
+    budget = int(float(os.environ.get("VERIF_COQ_MEM_GB", "40")) * 1000)      # in MB (integers: no rounding residue)
+    cond = threading.Condition()
+    in_use = [0]
+
+    def admitted(p):
+        need = min(budget, 500 + int(mem_gb_per_mb * os.path.getsize(p) / 1000))
+        with cond:
+            while in_use[0] > 0 and in_use[0] + need > budget:
+                cond.wait()
+            in_use[0] += need
+        try:
+            return one(p)
+        finally:
+            with cond:
+                in_use[0] -= need
+                cond.notify_all()
+
     with ThreadPoolExecutor(max_workers=NCPU) as ex:
-        results = list(ex.map(one, paths))
+        results = list(ex.map(admitted, paths))
     lines = []
     for k, r in enumerate(results):
         lo, hi = bounds[k]
